@@ -300,3 +300,8 @@ def run(ctx):
     # the u32-word -> u128-slot helper shared with the ptrace path (C04/lane-copy)
     from rules import c04
     c04.rule_lane_copy(ctx, R="C05/lane-copy")
+    # "what the caller supplied": the crash context and the blamed thread reach the writer as given (set_crash_context stores the context
+    # and nothing else; same rule instance as C19/setters-verbatim, C19/fresh-writer)
+    from rules import c19
+    c19.rule_setters_verbatim(ctx, R="C05/supplied-verbatim", only=("crash_context",))
+    c19.rule_fresh_writer(ctx, R="C05/blamed-thread-from-new")
